@@ -12,6 +12,7 @@ static void src_priv_dtor(void *data);
 static void *task_thread(void *data);
 static ev_src_t *create_src(m_mod_t *mod, m_src_types type, process_cb proc,
                             const void *src_data, m_src_flags flags, const void *userptr);
+static int deregister_src(m_mod_t *mod, m_src_types type, void *src_data, m_src_flags flags, const void *userptr);
 
 /* Compare functions */
 static int fdcmp(void *my_data, void *node_data);
@@ -216,7 +217,14 @@ static int tmrcmp(void *my_data, void *node_data) {
     ev_src_t *my = (ev_src_t *)my_data;
     ev_src_t *src = (ev_src_t *)node_data;
 
-    return M_CMP(my->tmr_src.its.ns, src->tmr_src.its.ns);
+    const int ret = M_CMP(my->tmr_src.its.ns, src->tmr_src.its.ns);
+    if (ret != 0) {
+        return ret;
+    }
+    /* Library internal timers (batch timeout, tokenbucket refill) never clash with user's ones, nor with each other */
+    const uintptr_t my_id = (my->flags & M_SRC_INTERNAL) ? (uintptr_t)my->userptr : 0;
+    const uintptr_t src_id = (src->flags & M_SRC_INTERNAL) ? (uintptr_t)src->userptr : 0;
+    return M_CMP(my_id, src_id);
 }
 
 static int sgncmp(void *my_data, void *node_data) {
@@ -397,11 +405,22 @@ int register_mod_src(m_mod_t *mod, m_src_types type, const void *src_data,
 }
 
 int deregister_mod_src(m_mod_t *mod, m_src_types type, void *src_data) {
+    return deregister_src(mod, type, src_data, 0, NULL);
+}
+
+/* Library internal timers are identified by their userptr too */
+int deregister_mod_int_tmr(m_mod_t *mod, const m_src_tmr_t *its, const void *userptr) {
+    return deregister_src(mod, M_SRC_TYPE_TMR, (void *)its, M_SRC_INTERNAL, userptr);
+}
+
+static int deregister_src(m_mod_t *mod, m_src_types type, void *src_data, m_src_flags flags, const void *userptr) {
     M_MOD_ASSERT(mod);
     M_MOD_CONSUME_TOKEN(mod);
 
     /* Lookups go through the same comparators used for insertion, that compare sources: wrap the key in one */
     ev_src_t key = {0};
+    key.flags = flags;
+    key.userptr = userptr;
     switch (type) {
     case M_SRC_TYPE_PS:
     case M_SRC_TYPE_FD:
